@@ -384,6 +384,7 @@ def run(w, rep, tier):
     rep.rule("C17.restoring", "at the level hover equilibrium dF/dp and dF/dv of both cascades' demanded force are negative diagonal constants and the height integrator integrates reference minus position (necessary for convergence)")
     rep.rule("C17.frames", "rotate_vector_w_to_b / _b_to_w are R(q)^T v / R(q) v, and every call site in the script applies them to a vector whose name declares the source frame and stores the result under a name that declares the target frame")
     rep.rule("C17.invariance", "the attitude laws are invariant under a common left multiplication of measured and reference attitude (they command a body rate from X^-1 X_r)")
+    rep.rule("C17.limits", "motor commands stay within limits: every motor force is clamped into [0, F_max] and omega = sqrt(F/Ct) of the clamped force (the C13.clamp obligations)")
     rep.rule("C17.gains", "feedback gains in the script are non-negative")
     keys = script_merges(w, rep)
     check_script_calls(w, rep, keys)
@@ -391,6 +392,15 @@ def run(w, rep, tier):
     check_restoring(w, rep)
     check_frames(w, rep, keys)
     check_attitude_invariance(w, rep)
+    # "attitude and rates settle": both attitude laws are gains times SO3Quat.log(X^-1 X_r); the loop is restoring only if
+    # that log is the principal rotation vector for both signs of the error quaternion (rule shared with C03 / C15; a stale
+    # half-angle gives a vector of length 2 pi - theta for q0 < 0: bang-bang gain, seeded C17-6)
+    from .c03 import quat_log_principal
+    with with_maxdeg(30):
+        quat_log_principal(w, rep, "C17.restoring", "attitude loop: ")
+    # "motor commands stay within limits": the allocator's clamps (C13.clamp)
+    forward_rules(w, rep, "c13", {"C13.clamp": "C17.limits"}, tier)
+    rep.floor("C17.limits", 8)
     check_gains(w, rep)
     rep.floor("C17.signs", 16)
     rep.floor("C17.restoring", 40)
